@@ -115,7 +115,11 @@ func goMapDefineOwnProperty(obj *object, name string, descriptor property, throw
 
 func goMapDelete(obj *object, name string, throw bool) bool {
 	goObj := obj.value.(*goMapObject)
-	goObj.value.SetMapIndex(goObj.toKey(name), reflect.Value{})
-	// FIXME
+	key, err := stringToReflectValue(name, goObj.keyType.Kind())
+	if err != nil || toValue(key).String() != name {
+		// No key is spelled like this: the property does not exist, and deleting it succeeds.
+		return true
+	}
+	goObj.value.SetMapIndex(key.Convert(goObj.keyType), reflect.Value{})
 	return true
 }
